@@ -818,5 +818,156 @@ def rule_M4(ctx):
         raise AnalysisBroken("only %d keyword installations in vi.c" % n_sites)
 
 
+# ----------------------------------------------------------------------------------------
+# N7: a slot that may hold a buffer is recycled only after its own dirty test
+
+
+def rule_N7(ctx):
+    """Opening a new buffer frees the slot bufs_findroom() picks; with a full table that slot
+    holds a live buffer.  Every path of a command handler to that effect passes a false edge of
+    bufs_modified(<the same slot>) or a documented bypass ('!' present, xwa), and the dirty edge
+    fails the command."""
+    ctx.begin("N7", floor=2, what="slot recycling behind the dirty test of that slot")
+    from .xn import _bang_test
+    from .w import fail_edge_check, ret_nonzero
+    prog = ctx.prog
+    bo = prog.func("bufs_open", file="ex.c")
+    # the slot bufs_open recycles is what bufs_findroom returns
+    room = None
+    for c in bo.calls("bufs_init"):
+        a = strip_casts(resolve_local(bo, c["args"][0]))
+        if is_call(a) and a.get("fn"):
+            room = a["fn"]
+    if room is None:
+        raise AnalysisBroken("bufs_open: the recycled slot is not the result of a lookup function")
+    ctx.ok("bufs_open", "the recycled slot is %s()" % room)
+    n_sites = 0
+    for f in prog.funcs.values():
+        if f.file != "ex.c" or f.name == "bufs_open":
+            continue
+        for e in f.calls("bufs_open"):
+            n_sites += 1
+            cfg = f.cfg
+            ge = set()
+            tests = []
+            for b in cfg.blocks.values():
+                br = cfg.branch(b.id)
+                if not br:
+                    continue
+                c0 = f.nodes.get(br[0])
+                if c0 is None:
+                    continue
+                c, t = negate_truth(c0, True)
+
+                def edge(v, b=b, t=t):
+                    return (b.id, 0 if (v == t) else 1)
+                if is_call(c, "bufs_modified"):
+                    a = strip_casts(resolve_local(f, c["args"][0]))
+                    if is_call(a, room):
+                        # nothing between the lookup and the recycling may change the table
+                        ge.add(edge(False))
+                        tests.append(c)
+                bt = _bang_test(c, f)
+                if bt and bt[0] == "!":
+                    ge.add(edge(bt[1]))
+                if c["k"] == "ref" and c["name"] == "xwa":
+                    ge.add(edge(True))
+            if not tests:
+                ctx.violation(f.name, "recycled slot is tested for unsaved changes",
+                              "bufs_open() reuses slot %s() -- with all slots in use a live buffer -- but no "
+                              "bufs_modified(%s(), ..) test precedes it: the unsaved changes of the least "
+                              "recently used buffer are discarded by :e without '!'" % (room, room), f.loc(e))
+                continue
+            hit = cfg.search(cfg.entry, lambda x: x == e["id"],
+                             edge_ok=lambda b, k, s_: (b, k) not in ge, start_block=True)
+            if hit is not None:
+                ctx.violation(f.name, "recycled slot is tested for unsaved changes",
+                              "bufs_open is reachable without bufs_modified(%s()) being false and without "
+                              "'!' or xwa" % room, f.loc(e))
+            else:
+                ctx.ok(f.name, "bufs_open only past bufs_modified(%s()) == 0 or a bypass" % room, loc=f.loc(e))
+            # table unchanged between the test and the effect
+            for t_ in tests:
+                pt = cfg.pos(t_)
+                for c2 in f.calls(("bufs_switch", "bufs_free", "bufs_init", "ex_command", "ex_exec")):
+                    pc = cfg.pos(c2)
+                    if pt is None or pc is None or c2["id"] == e["id"]:
+                        continue
+                    if cfg.search(pt, lambda x, i=c2["id"]: x == i, avoid=lambda x, i=e["id"]: x == i) is not None \
+                            and cfg.search(pc, lambda x, i=e["id"]: x == i) is not None:
+                        ctx.violation(f.name, "recycled slot is tested for unsaved changes",
+                                      "%s runs between the dirty test of the slot and bufs_open: the slot "
+                                      "found then may be another one" % c2["fn"], f.loc(c2))
+                fail_edge_check(ctx, f, t_, "!=0", lambda n: is_call(n, ("bufs_open", "bufs_switch")), ret_nonzero,
+                                "modified victim refuses the command")
+    if not n_sites:
+        raise AnalysisBroken("no caller of bufs_open")
+
+
+# ----------------------------------------------------------------------------------------
+# X7: where append / insert / change splice
+
+
+def rule_X7(ctx):
+    """ec_insert: on every path to the splice, by the command letter the path tested:
+    a -> (end, end) of the validated range (after the last addressed line; (0,0) for 0a),
+    i -> (beg, beg), c -> (beg, end)."""
+    ctx.begin("X7", floor=3, what="splice position of append / insert / change")
+    from ..bounds import path_states
+    prog = ctx.prog
+    f = prog.func("ec_insert", file="ex.c")
+    regs = list(f.calls("ex_region"))
+    if len(regs) != 1:
+        raise AnalysisBroken("ec_insert: ex_region call not found")
+    outs = []
+    for a in regs[0]["args"][1:3]:
+        a = strip_casts(a)
+        if a["k"] == "un" and a["op"] == "&" and a["e"]["k"] == "ref":
+            outs.append(a["e"]["name"])
+    if len(outs) != 2:
+        raise AnalysisBroken("ec_insert: ex_region's out-parameters not found")
+    bname, ename = outs
+    cmdp = f.params[1]["name"]
+    seen = set()
+    for e in f.calls("lbuf_edit"):
+        for subst, hyps, items in path_states(f, e["id"]):
+            B0 = Lin({"?%s@%d" % (bname, regs[0]["id"]): 1})
+            E0 = Lin({"?%s@%d" % (ename, regs[0]["id"]): 1})
+            pos = linearize(strip_casts(e["args"][2]), subst)
+            end = linearize(strip_casts(e["args"][3]), subst)
+            letter = {}
+            for x in items:
+                if x[0] != "br":
+                    continue
+                c = f.nodes[x[1]]
+                if c["k"] == "bin" and c["op"] in ("==", "!=") and cval(c["r"]) is not None and \
+                        key(strip_casts(c["l"])) in ("%s[0]" % cmdp, "(*%s)" % cmdp):
+                    letter[chr(cval(c["r"]))] = (c["op"] == "==") == x[2]
+            kind = "a" if letter.get("a") else ("c" if letter.get("c") else (
+                "i" if letter.get("a") is False and letter.get("c") is False else None))
+            if kind is None or pos is None or end is None:
+                ctx.inconclusive("ec_insert", "splice position", "path not classified by the command letter", f.loc(e))
+                continue
+            want = {"a": (E0, E0), "i": (B0, B0), "c": (B0, E0)}[kind]
+            okp = all(prove_le(x_, y_, hyps) == PROVEN and prove_le(y_, x_, hyps) == PROVEN
+                      for x_, y_ in ((pos, want[0]), (end, want[1])))
+            if (kind, okp) in seen:
+                continue
+            seen.add((kind, okp))
+            names = {"a": "append", "i": "insert", "c": "change"}
+            if okp:
+                ctx.ok("ec_insert", "%s splices (%s, %s) of the validated range" % (
+                    names[kind], "end" if kind == "a" else "beg", "beg" if kind == "i" else "end"), loc=f.loc(e))
+            else:
+                ctx.violation("ec_insert", "%s splices at the right line" % names[kind],
+                              "for `%s` the text is spliced at (%r, %r) instead of (%s, %s) of the range ex_region "
+                              "validated: %s" % (kind, pos, end, "end" if kind == "a" else "beg",
+                                                  "beg" if kind == "i" else "end",
+                                                  "2,3a appends after line 2 and 0a after line 1" if kind == "a" else
+                                                  "other lines than the addressed ones change"), f.loc(e))
+    if len({k for k, o in seen}) < 3:
+        ctx.broken("ec_insert: only %s of append / insert / change classified" % sorted(k for k, o in seen))
+
+
 RULES = {"B12": rule_B12, "B13": rule_B13, "W9": rule_W9, "X6": rule_X6, "T5": rule_T5, "S5": rule_S5,
-         "G5": rule_G5, "G6": rule_G6, "P2": rule_P2, "G7": rule_G7, "M4": rule_M4}
+         "G5": rule_G5, "G6": rule_G6, "P2": rule_P2, "G7": rule_G7, "M4": rule_M4, "N7": rule_N7, "X7": rule_X7}
